@@ -1,0 +1,279 @@
+//go:build verif
+// +build verif
+
+// Machine-checked contracts for package runtime (comment-only; read by
+// /verif/govc, see /verif/DESIGN.md §3).  This file declares nothing.
+
+package runtime
+
+//@ macro isInt(v) = typeis(v.iface, int64)
+//@ macro isFloat(v) = typeis(v.iface, float64)
+//@ macro isNum(v) = (typeis(v.iface, int64) || typeis(v.iface, float64))
+//@ macro valueOK(v) = ((typeis(v.iface, int64) ==> v.iface == dummyInt64) && (typeis(v.iface, float64) ==> v.iface == dummyFloat64) && (typeis(v.iface, bool) ==> v.iface == dummyBool && v.scalar <= 1))
+//@ macro isIntVal(r, n) = (typeis(r.iface, int64) && r.iface == dummyInt64 && r.AsInt() == n)
+//@ macro isFloatVal(r, f) = (typeis(r.iface, float64) && r.iface == dummyFloat64 && r.scalar == float64bits(f))
+
+// ---------------------------------------------------------------------------
+// C02: numbers — arithmetic (manual §3.4.1: integers wrap modulo 2^64, floats
+// follow IEEE 754 round-to-nearest; mixed operands convert the integer)
+// ---------------------------------------------------------------------------
+
+//@ func Unm
+//@   prop C02
+//@   arith bv
+//@   ensures isInt(x) ==> result1 && isIntVal(result0, -x.AsInt())
+//@   ensures isFloat(x) ==> result1 && isFloatVal(result0, -x.AsFloat())
+//@   ensures !isNum(x) ==> !result1 && result0 == NilValue
+
+//@ func Add
+//@   prop C02
+//@   arith bv
+//@   ensures isInt(x) && isInt(y) ==> result1 && isIntVal(result0, x.AsInt() + y.AsInt())
+//@   ensures isInt(x) && isFloat(y) ==> result1 && isFloatVal(result0, float64(x.AsInt()) + y.AsFloat())
+//@   ensures isFloat(x) && isInt(y) ==> result1 && isFloatVal(result0, x.AsFloat() + float64(y.AsInt()))
+//@   ensures isFloat(x) && isFloat(y) ==> result1 && isFloatVal(result0, x.AsFloat() + y.AsFloat())
+//@   ensures !(isNum(x) && isNum(y)) ==> !result1 && result0 == NilValue
+
+//@ func Sub
+//@   prop C02
+//@   arith bv
+//@   ensures isInt(x) && isInt(y) ==> result1 && isIntVal(result0, x.AsInt() - y.AsInt())
+//@   ensures isInt(x) && isFloat(y) ==> result1 && isFloatVal(result0, float64(x.AsInt()) - y.AsFloat())
+//@   ensures isFloat(x) && isInt(y) ==> result1 && isFloatVal(result0, x.AsFloat() - float64(y.AsInt()))
+//@   ensures isFloat(x) && isFloat(y) ==> result1 && isFloatVal(result0, x.AsFloat() - y.AsFloat())
+//@   ensures !(isNum(x) && isNum(y)) ==> !result1 && result0 == NilValue
+
+//@ func Mul
+//@   prop C02
+//@   arith bv
+//@   ensures isInt(x) && isInt(y) ==> result1 && isIntVal(result0, x.AsInt() * y.AsInt())
+//@   ensures isInt(x) && isFloat(y) ==> result1 && isFloatVal(result0, float64(x.AsInt()) * y.AsFloat())
+//@   ensures isFloat(x) && isInt(y) ==> result1 && isFloatVal(result0, x.AsFloat() * float64(y.AsInt()))
+//@   ensures isFloat(x) && isFloat(y) ==> result1 && isFloatVal(result0, x.AsFloat() * y.AsFloat())
+//@   ensures !(isNum(x) && isNum(y)) ==> !result1 && result0 == NilValue
+
+// "/" always works on floats
+//@ func Div
+//@   prop C02
+//@   arith bv
+//@   ensures isInt(x) && isInt(y) ==> result1 && isFloatVal(result0, float64(x.AsInt()) / float64(y.AsInt()))
+//@   ensures isInt(x) && isFloat(y) ==> result1 && isFloatVal(result0, float64(x.AsInt()) / y.AsFloat())
+//@   ensures isFloat(x) && isInt(y) ==> result1 && isFloatVal(result0, x.AsFloat() / float64(y.AsInt()))
+//@   ensures isFloat(x) && isFloat(y) ==> result1 && isFloatVal(result0, x.AsFloat() / y.AsFloat())
+//@   ensures !(isNum(x) && isNum(y)) ==> !result1 && result0 == NilValue
+
+// Floor division and modulo on integers are proved against the mathematical
+// definition (SMT `div`, which is floor for positive divisors) in integer
+// mode; callers in bit-vector mode see spec.floorDiv/floorMod as the same
+// (there uninterpreted) functions.
+//@ func floordivInt
+//@   prop C02
+//@   arith int
+//@   requires y != 0
+//@   ensures result == int64(spec.floorDiv(x, y))
+
+//@ func modInt
+//@   prop C02
+//@   arith int
+//@   requires y != 0
+//@   ensures result == int64(spec.floorMod(x, y))
+
+//@ lemma spec.floorMod/sign-and-range
+//@   prop C02
+//@   arith int
+//@   forall x, y int64
+//@   requires y != 0
+//@   ensures spec.floorMod(x, y) == 0 || (spec.floorMod(x, y) < 0) == (y < 0)
+//@   ensures y > 0 ==> 0 <= spec.floorMod(x, y) && spec.floorMod(x, y) < mathint(y)
+//@   ensures y < 0 ==> mathint(y) < spec.floorMod(x, y) && spec.floorMod(x, y) <= 0
+//@   ensures mathint(x) == mathint(y) * spec.floorDivMath(x, y) + spec.floorMod(x, y)
+
+//@ func floordivFloat
+//@   prop C02
+//@   arith bv
+//@   pure
+//@   ensures same(result, spec.floorDivFloat(x, y))
+
+// Float modulo: math.Mod is assumed (|r| < |y|, sign of x, NaN cases); proved
+// here: the result is zero or has the sign of the divisor, and is congruent.
+//@ func modFloat
+//@   prop C02
+//@   arith bv
+//@   pure
+//@   ensures result == result && result != 0 && y == y ==> (result < 0) == (y < 0)
+
+//@ func Idiv
+//@   prop C02
+//@   arith bv
+//@   ensures isInt(x) && isInt(y) && y.AsInt() == 0 ==> result1 && result2 != nil && result0 == NilValue
+//@   ensures isInt(x) && isInt(y) && y.AsInt() != 0 ==> result1 && result2 == nil && isIntVal(result0, int64(spec.floorDiv(x.AsInt(), y.AsInt())))
+//@   ensures isInt(x) && isFloat(y) ==> result1 && result2 == nil && isFloatVal(result0, floordivFloat(float64(x.AsInt()), y.AsFloat()))
+//@   ensures isFloat(x) && isInt(y) ==> result1 && result2 == nil && isFloatVal(result0, floordivFloat(x.AsFloat(), float64(y.AsInt())))
+//@   ensures isFloat(x) && isFloat(y) ==> result1 && result2 == nil && isFloatVal(result0, floordivFloat(x.AsFloat(), y.AsFloat()))
+//@   ensures !(isNum(x) && isNum(y)) ==> !result1 && result2 == nil && result0 == NilValue
+
+//@ func Mod
+//@   prop C02
+//@   arith bv
+//@   ensures isInt(x) && isInt(y) && y.AsInt() == 0 ==> result1 && result2 != nil && result0 == NilValue
+//@   ensures isInt(x) && isInt(y) && y.AsInt() != 0 ==> result1 && result2 == nil && isIntVal(result0, int64(spec.floorMod(x.AsInt(), y.AsInt())))
+//@   ensures isInt(x) && isFloat(y) ==> result1 && result2 == nil && isFloatVal(result0, modFloat(float64(x.AsInt()), y.AsFloat()))
+//@   ensures isFloat(x) && isInt(y) ==> result1 && result2 == nil && isFloatVal(result0, modFloat(x.AsFloat(), float64(y.AsInt())))
+//@   ensures isFloat(x) && isFloat(y) ==> result1 && result2 == nil && isFloatVal(result0, modFloat(x.AsFloat(), y.AsFloat()))
+//@   ensures !(isNum(x) && isNum(y)) ==> !result1 && result2 == nil && result0 == NilValue
+
+//@ func Pow
+//@   prop C02
+//@   arith bv
+//@   ensures isNum(x) && isNum(y) ==> result1 && typeis(result0.iface, float64)
+//@   ensures !(isNum(x) && isNum(y)) ==> !result1 && result0 == NilValue
+
+// ---------------------------------------------------------------------------
+// C02: comparison (manual §3.4.4: mixed int/float comparison is mathematically
+// exact; the specs are spec.ltIntFloat etc. in /verif/spec/bv.smt2)
+// ---------------------------------------------------------------------------
+
+//@ func equalIntAndFloat
+//@   prop C02
+//@   arith bv
+//@   ensures result == spec.eqIntFloat(n, f)
+
+//@ func ltIntAndFloat
+//@   prop C02 C16
+//@   arith bv
+//@   ensures result == spec.ltIntFloat(n, f)
+
+//@ func ltFloatAndInt
+//@   prop C02 C16
+//@   arith bv
+//@   ensures result == spec.ltFloatInt(f, n)
+
+//@ func leIntAndFloat
+//@   prop C02
+//@   arith bv
+//@   ensures result == spec.leIntFloat(n, f)
+
+//@ func leFloatAndInt
+//@   prop C02
+//@   arith bv
+//@   ensures result == spec.leFloatInt(f, n)
+
+//@ func isZero
+//@   prop C02 C16
+//@   arith bv
+//@   ensures result == ((isInt(x) && x.AsInt() == 0) || (isFloat(x) && x.AsFloat() == 0))
+
+//@ func isPositive
+//@   prop C02 C16
+//@   arith bv
+//@   ensures result == ((isInt(x) && x.AsInt() > 0) || (isFloat(x) && x.AsFloat() > 0))
+
+//@ func numIsLessThan
+//@   prop C02 C16
+//@   arith bv
+//@   ensures isInt(x) && isInt(y) ==> result == (x.AsInt() < y.AsInt())
+//@   ensures isInt(x) && isFloat(y) ==> result == spec.ltIntFloat(x.AsInt(), y.AsFloat())
+//@   ensures isFloat(x) && isInt(y) ==> result == spec.ltFloatInt(x.AsFloat(), y.AsInt())
+//@   ensures isFloat(x) && isFloat(y) ==> result == (x.AsFloat() < y.AsFloat())
+//@   ensures !(isNum(x) && isNum(y)) ==> !result
+
+//@ func isLessThan
+//@   prop C02 C16
+//@   arith bv
+//@   ensures result1 == (isNum(x) && isNum(y))
+//@   ensures isInt(x) && isInt(y) ==> result0 == (x.AsInt() < y.AsInt())
+//@   ensures isInt(x) && isFloat(y) ==> result0 == spec.ltIntFloat(x.AsInt(), y.AsFloat())
+//@   ensures isFloat(x) && isInt(y) ==> result0 == spec.ltFloatInt(x.AsFloat(), y.AsInt())
+//@   ensures isFloat(x) && isFloat(y) ==> result0 == (x.AsFloat() < y.AsFloat())
+//@   ensures !(isNum(x) && isNum(y)) ==> !result0
+
+// Order laws over the specification (trichotomy; le = lt or eq): what a user of
+// the comparison operators relies on, stated over the contracts' spec functions.
+//@ lemma order/int-float-trichotomy
+//@   prop C02
+//@   arith bv
+//@   forall n int64; f float64
+//@   requires f == f
+//@   ensures (spec.ltIntFloat(n, f) && !spec.eqIntFloat(n, f) && !spec.ltFloatInt(f, n)) || (!spec.ltIntFloat(n, f) && spec.eqIntFloat(n, f) && !spec.ltFloatInt(f, n)) || (!spec.ltIntFloat(n, f) && !spec.eqIntFloat(n, f) && spec.ltFloatInt(f, n))
+//@   ensures spec.leIntFloat(n, f) == (spec.ltIntFloat(n, f) || spec.eqIntFloat(n, f))
+//@   ensures spec.leFloatInt(f, n) == (spec.ltFloatInt(f, n) || spec.eqIntFloat(n, f))
+
+//@ lemma order/exact-on-representable
+//@   prop C02
+//@   arith bv
+//@   forall n, m int64
+//@   requires -9007199254740992 <= m && m <= 9007199254740992
+//@   ensures spec.ltIntFloat(n, float64(m)) == (n < m)
+//@   ensures spec.eqIntFloat(n, float64(m)) == (n == m)
+//@   ensures spec.ltFloatInt(float64(m), n) == (m < n)
+
+//@ lemma order/boundary-points
+//@   prop C02
+//@   arith bv
+//@   ensures spec.ltIntFloat(9223372036854775807, 9223372036854775808.0)
+//@   ensures !spec.leFloatInt(9223372036854775808.0, 9223372036854775807)
+//@   ensures spec.eqIntFloat(-9223372036854775808, -9223372036854775808.0)
+//@   ensures !spec.eqIntFloat(9223372036854775807, 9223372036854775808.0)
+
+// ---------------------------------------------------------------------------
+// C02: conversions (manual §3.4.3: a float converts to an integer only if it
+// has an exact integer representation)
+// ---------------------------------------------------------------------------
+
+//@ func FloatToInt
+//@   prop C02
+//@   arith bv
+//@   ensures spec.floatIsInt(f) ==> result1 == IsInt && result0 == int64(spec.floatToInt(f))
+//@   ensures !spec.floatIsInt(f) ==> result1 == NaI && result0 == 0
+
+//@ func ToIntNoString
+//@   prop C02
+//@   arith bv
+//@   ensures isInt(v) ==> result1 && result0 == v.AsInt()
+//@   ensures isFloat(v) ==> result1 == spec.floatIsInt(v.AsFloat()) && (result1 ==> result0 == int64(spec.floatToInt(v.AsFloat())))
+//@   ensures !isNum(v) ==> !result1 && result0 == 0
+
+// ---------------------------------------------------------------------------
+// C02: bitwise operators on the integer path (manual §3.4.2: operate on all
+// 64 bits; shifts are logical, displacements >= 64 give 0, negative shift
+// the other way)
+// ---------------------------------------------------------------------------
+
+//@ macro bothInts(x, y) = (isNum(x) && isNum(y) && (isFloat(x) ==> spec.floatIsInt(x.AsFloat())) && (isFloat(y) ==> spec.floatIsInt(y.AsFloat())))
+//@ macro intOf(x) = ite(isInt(x), x.AsInt(), int64(spec.floatToInt(x.AsFloat())))
+
+//@ func band
+//@   prop C02
+//@   arith bv
+//@   modifies everything()
+//@   ensures bothInts(x, y) ==> result1 == nil && isIntVal(result0, intOf(x) & intOf(y))
+
+//@ func bor
+//@   prop C02
+//@   arith bv
+//@   modifies everything()
+//@   ensures bothInts(x, y) ==> result1 == nil && isIntVal(result0, intOf(x) | intOf(y))
+
+//@ func bxor
+//@   prop C02
+//@   arith bv
+//@   modifies everything()
+//@   ensures bothInts(x, y) ==> result1 == nil && isIntVal(result0, intOf(x) ^ intOf(y))
+
+//@ func shl
+//@   prop C02
+//@   arith bv
+//@   modifies everything()
+//@   ensures bothInts(x, y) ==> result1 == nil && isIntVal(result0, int64(spec.luaShl(intOf(x), intOf(y))))
+
+//@ func shr
+//@   prop C02
+//@   arith bv
+//@   modifies everything()
+//@   ensures bothInts(x, y) ==> result1 == nil && isIntVal(result0, int64(spec.luaShr(intOf(x), intOf(y))))
+
+//@ func bnot
+//@   prop C02
+//@   arith bv
+//@   modifies everything()
+//@   ensures isNum(x) && (isFloat(x) ==> spec.floatIsInt(x.AsFloat())) ==> result1 == nil && isIntVal(result0, ^intOf(x))
